@@ -266,4 +266,36 @@ func init() {
 		WantProbes:  []string{"deadline-past", "deadline-now", "deadline-equal", "deadline-around-queued", "deadline-far-future", "scheduler-closed", "parked:sched.put", "parked:sched.prepend", "parked:sched.task"},
 		nontrivial:  func(r *proto.RunResult, nf int) bool { return r.Progress && nf > 0 },
 	}
+	plans["C19"] = &propPlan{
+		Level: "exploration",
+		Items: []planItem{
+			{Scenario: "oob", Stratum: "", Quick: 900, Thorough: 30000, PerJob: 8},
+			{Scenario: "oob", Stratum: "nofec", Quick: 150, Thorough: 3000, PerJob: 8},
+			{Scenario: "peers", Stratum: "oob", Quick: 250, Thorough: 8000, PerJob: 4},
+		},
+		QuickBudget: 60 * time.Second, ThoroughBudget: 25 * time.Minute,
+		Rule: "evaluations = seeded simulated runs: a bidirectional transfer with FEC on under the full fault swarm; 1-2 OOB sender actors interleave 5-200 SendOOB calls (payload = unique tag + keyed filler; lengths 0..8, GetOOBMaxSize()-3..GetOOBMaxSize(), +1, and uniform) with the Write traffic at seeded gaps; handlers registered, absent, or registered and replaced by nil, on either side. Oracle: every handler argument equals byte for byte a payload sent to THAT session and arrives at most as often as the network delivered copies of its datagram (counted at the fate decision); oversize and no-FEC calls return an error and put nothing on the wire; the stream, wire (FEC ids contiguous around OOB packets, parity verified) and pool oracles keep holding. 'peers/oob': several sessions on one listener, payloads tagged per session. Non-trivial = a handler was invoked, a fault fired and stream payload was delivered; distinct = distinct event-log hashes",
+		Real: realSession, Stub: stubSession,
+		Assumptions: append([]string{"payloads shorter than 8 bytes cannot carry a tag: they are checked by content and by count per length"}, assumeCommon...),
+		WantProbes:  []string{"oob-sent", "oob-sent-at-max", "oob-sent-empty", "oob-oversize-refused", "oob-refused-without-fec", "oob-handler-invoked", "oob-datagram-lost", "oob-datagram-duplicated"},
+		nontrivial: func(r *proto.RunResult, nf int) bool {
+			return r.Progress && nf > 0 && (r.Probes["oob-handler-invoked"] > 0 || r.Stratum == "nofec")
+		},
+	}
+	plans["C11"] = &propPlan{
+		Level: "exploration",
+		Items: []planItem{
+			{Scenario: "peers", Stratum: "", Quick: 600, Thorough: 25000, PerJob: 4},
+			{Scenario: "peers", Stratum: "backlog", Quick: 6, Thorough: 200, PerJob: 1},
+			{Scenario: "peers", Stratum: "oob", Quick: 150, Thorough: 5000, PerJob: 4},
+			{Scenario: "peers", Stratum: "reconnect-fec", Quick: 150, Thorough: 1500, PerJob: 4},
+			{Scenario: "xfer", Stratum: "", Quick: 150, Thorough: 4000, PerJob: 8},
+		},
+		QuickBudget: 80 * time.Second, ThoroughBudget: 28 * time.Minute, PerRunTimeout: 240 * time.Second,
+		Rule: "evaluations = seeded simulated runs: one listener, 1-8 clients ('backlog': 120-160, beyond the accept backlog of 128) with distinct addresses, conversation ids and keyed payload streams, connecting at seeded instants; an acceptor that stalls for seeded periods; up to 120 injected datagrams per run: a datagram of peer X delivered as coming from peer Y, stale datagrams of a closed conversation, forged datagrams with another conversation id (first segment sn != 0) from a peer's own address, valid and random datagrams from unknown addresses, datagrams from foreign addresses to dialled sessions; clients that close and reconnect from the same address with a new conversation (after the old conversation's datagrams have left the network); all under loss, duplication and reordering. Oracle: every accepted session's stream is a prefix of the stream of exactly the peer at its RemoteAddr/GetConv; Accept never returns a wrong conversation, a second session for an open (address, conv), or a session from an address nothing was sent from; each conversation gets exactly one Accept by the end; no session's Read fails unless a side closed it or its peer started a new conversation. Non-trivial = payload delivered and (an injection or a fault fired); distinct = distinct event-log hashes",
+		Real: realSession, Stub: stubSession,
+		Assumptions: append([]string{"the injector only uses datagrams that must be ignored: the listener takes conv and sn from the first segment of a datagram, and a different conv with sn 0 there legitimately starts a new conversation (no handshake) - that case is exercised only as a genuine reconnect", "not demanded: that a client which keeps retransmitting after the server closed its session cannot cause a fresh Accept"}, assumeCommon...),
+		WantProbes:  []string{"connect", "readdressed-datagram", "stale-datagram", "forged-other-conversation", "unknown-address-valid", "unknown-address-noise", "foreign-source-to-dialled", "reconnect-same-address", "acceptor-stall"},
+		nontrivial:  func(r *proto.RunResult, nf int) bool { return r.Progress && nf > 0 },
+	}
 }
